@@ -174,8 +174,20 @@ class RegexCompiler:
                 (0xFEFF, 0xFEFF),
             ]
         elif ch == "S":
-            # Non-whitespace - simplified
-            return [(ord("!"), ord("~"))]  # Printable ASCII
+            # Non-whitespace: the complement of the \s ranges
+            return [
+                (0, ord("\t") - 1),
+                (ord("\r") + 1, ord(" ") - 1),
+                (ord(" ") + 1, 0x00A0 - 1),
+                (0x00A0 + 1, 0x1680 - 1),
+                (0x1680 + 1, 0x2000 - 1),
+                (0x200A + 1, 0x2028 - 1),
+                (0x2029 + 1, 0x202F - 1),
+                (0x202F + 1, 0x205F - 1),
+                (0x205F + 1, 0x3000 - 1),
+                (0x3000 + 1, 0xFEFF - 1),
+                (0xFEFF + 1, 0x10FFFF),
+            ]
         else:
             raise RegExpError(f"Unknown shorthand: \\{ch}")
 
